@@ -189,7 +189,11 @@ class Inliner:
         try:
             nested = {n.name: n for n in ast.walk(fi.node)
                       if n is not fi.node and isinstance(n, (ast.FunctionDef, ast.AsyncFunctionDef))}
+            n_before = len(self.inlined)
             fi.node.body = self._block(fi, fi.node.body, nested, 0)
+            if len(self.inlined) > n_before:
+                from .normal import normalise_function
+                normalise_function(fi.node)  # spliced bodies may bring spellings the first pass has already removed elsewhere
         finally:
             self.state[id(fi.node)] = "done"
 
